@@ -40,50 +40,40 @@ def parseToks : List String → Option (List Tok)
     | _, _, _, _ => none
   | _ => none
 
-def tokWF (t : Tok) : Bool :=
-  (lookupTypes t.str tokTypes = [] || (lookupTypes t.str tokTypes).contains t.ty) && (t.varId = 0 || t.isName)
+def optNat (s : String) : Option (Option Nat) :=
+  if s == "-" then some none else s.toNat?.map some
 
-def findInterp (p : Str) (v : Nat) (simple : Bool) : List Tok → Nat → String
-  | [], _ => "N"
-  | t :: r, i =>
-    let res := if simple then Res.ofBool (simpleMatchB p (t :: r)) else interpB p (t :: r) v
-    match res with
-    | .t => toString i
-    | .err => "E"
-    | .f => findInterp p v simple r (i + 1)
-
-def findRunStr (pr : Prog) (v : Nat) : List Tok → Nat → String
-  | [], _ => "N"
-  | t :: r, i =>
-    match run pr (t :: r) v with
-    | .t => toString i
-    | .err => "E"
-    | .f => findRunStr pr v r (i + 1)
-
+/-- op `match <kind> <hexpattern> <varid> <hasVarid> <start> <end|-> {<hexstr> <type> <varid> <isName>}*`
+    kinds: M Token::Match, S simpleMatch, FM findmatch, FS findsimplematch (`start`/`end` = token numbers,
+    `-` = the form without `end`).  Output: interpreted | compiled | documented language | hypotheses. -/
 def step (line : String) : String :=
   match fields line with
   | ["compile", p, hv] =>
     match fromHex p with
     | some p =>
       let hv := hv == "1"
-      s!"{progStr (compile p hv)} wf={boolStr (patternWF p)} swf={boolStr (simplePatternWF p)} uv={boolStr (usesVarid (parse p))}"
+      s!"{progStr (compile p hv)} wf={boolStr (patternWF p)} swf={boolStr (simplePatternWF p)} uv={boolStr (usesVarid (parse p))} nn={boolStr (noNul p)}"
     | none => "bad-op"
-  | "match" :: kind :: p :: v :: hv :: toks =>
-    match fromHex p, v.toNat?, parseToks toks with
-    | some p, some v, some ts =>
+  | "match" :: kind :: p :: v :: hv :: st :: en :: toks =>
+    match fromHex p, v.toNat?, st.toNat?, optNat en, parseToks toks with
+    | some p, some v, some st, some en, some all =>
       let hv := hv == "1"
-      let twf := ts.all tokWF
+      let ts := all.drop st
+      let hyp := s!"twf {boolStr (ts.all TokWF)} | tsok {boolStr (ts.all TokStrOK)}"
       let pr := compile p hv
       if kind == "M" then
-        s!"I {(interpB p ts v).toString} | C {(run pr ts v).toString} | S {(sem (parse p) ts v).toString} | twf {boolStr twf}"
+        s!"I {(interpB p ts v).toString} | C {(run pr ts v).toString} | S {(lang (parse p) ts v).toString} | {hyp}"
       else if kind == "S" then
-        s!"I {boolStr (simpleMatchB p ts)} | C {(run pr ts v).toString} | S {(sem (parse p) ts v).toString} | twf {boolStr twf}"
-      else if kind == "FM" then
-        s!"I {findInterp p v false ts 0} | C {findRunStr pr v ts 0} | S - | twf {boolStr twf}"
-      else if kind == "FS" then
-        s!"I {findInterp p v true ts 0} | C {findRunStr pr v ts 0} | S - | twf {boolStr twf}"
-      else "bad-op"
-    | _, _, _ => "bad-op"
+        s!"I {boolStr (simpleMatchB p ts)} | C {(run pr ts v).toString} | S {(lang (parse p) ts v).toString} | {hyp}"
+      else
+        let budget := endBudget all.length st en
+        let first := (findWith (fun ts' => lang (parse p) ts' v) ts budget).toString
+        if kind == "FM" then
+          s!"I {(findInterp p v ts budget).toString} | C {findFromStr (findFrom pr v ts 0 budget)} | S {first} | {hyp}"
+        else if kind == "FS" then
+          s!"I {(findSimpleInterp p ts budget).toString} | C {findFromStr (findFrom pr v ts 0 budget)} | S {first} | {hyp}"
+        else "bad-op"
+    | _, _, _, _, _ => "bad-op"
   | _ => "bad-op"
 
 end Driver.C33
